@@ -351,7 +351,12 @@ def _used_set_idiom(cfg, inner, key_el):
             coll = dotted(c.func.value)
             guard = any(t.kind == 'test' and ast.unparse(t.ast).replace(' ', '') in (f'{key_el}in{coll}', f'{key_el}notin{coll}')
                         for t in cfg.nodes)
-            if guard:
+            # the used-set lives across signatures: it is created before the loops, never inside them
+            outer_for = [a for a in cfg.ancestors(inner.ast) if isinstance(a, ast.For)]
+            inits = [m for m in cfg.nodes if m.kind == 'stmt' and isinstance(m.ast, ast.Assign) and
+                     any(isinstance(t, ast.Name) and t.id == coll for t in m.ast.targets)]
+            fresh_each_time = any(any(a is lp for a in cfg.ancestors(m.ast)) for m in inits for lp in outer_for + [inner.ast])
+            if guard and inits and not fresh_each_time:
                 adds.append(n)
     return adds
 
